@@ -118,7 +118,7 @@ pub const STMT_CTXS: &[StmtCtx] = &[
             let n = format!("h{}", d);
             let q = format!("q{}", d);
             b.push(Stmt::Expr(var(&q)));
-            let f = Expr::Fn(std::rc::Rc::new(FnLit { params: vec![(q.clone(), Some(Ty::Int))], ret: RetAnn::Ty(Ty::Int), body: b, pure: true }));
+            let f = Expr::Fn(std::sync::Arc::new(FnLit { params: vec![(q.clone(), Some(Ty::Int))], ret: RetAnn::Ty(Ty::Int), body: b, pure: true }));
             vec![cdef(&n, f), cdef(&format!("y{}", d), callv(&n, vec![int(1)]))]
         },
         in_loop: false,
@@ -199,7 +199,7 @@ pub fn prelude() -> Vec<Top> {
         top_fn("idb", vec![("q", Some(Ty::Bool))], RetAnn::Ty(Ty::Bool), vec![Stmt::Expr(var("q"))]),
         top_fn("ids", vec![("q", Some(Ty::Str))], RetAnn::Ty(Ty::Str), vec![Stmt::Expr(var("q"))]),
         top_fn("f2", vec![("a", Some(Ty::Int)), ("b", Some(Ty::Int))], RetAnn::Ty(Ty::Int), vec![Stmt::Expr(var("a"))]),
-        Top::Def { name: "idp".into(), mutable: false, ty: None, value: Expr::Fn(std::rc::Rc::new(FnLit { params: vec![("q".to_string(), Some(Ty::Int))], ret: RetAnn::Ty(Ty::Int), body: vec![Stmt::Expr(var("q"))], pure: true })) },
+        Top::Def { name: "idp".into(), mutable: false, ty: None, value: Expr::Fn(std::sync::Arc::new(FnLit { params: vec![("q".to_string(), Some(Ty::Int))], ret: RetAnn::Ty(Ty::Int), body: vec![Stmt::Expr(var("q"))], pure: true })) },
         top_fn("app", vec![("cb", Some(Ty::PuFn(vec![Ty::Int], Box::new(Ty::Int))))], RetAnn::Ty(Ty::Int), vec![Stmt::Expr(callv("cb", vec![int(1)]))]),
         Top::Blob { name: "PF".into(), fields: vec![("f".into(), Ty::PuFn(vec![Ty::Int], Box::new(Ty::Int)))] },
         Top::Def { name: "k".into(), mutable: false, ty: None, value: int(7) },
@@ -233,14 +233,14 @@ pub fn build(prelude: &[Top], path: &[usize], placement: Placement, stmts: Vec<S
         Placement::PureFn => {
             let mut body = b;
             body.push(Stmt::Expr(var("q")));
-            let f = Expr::Fn(std::rc::Rc::new(FnLit { params: vec![("q".to_string(), Some(Ty::Int))], ret: RetAnn::Ty(Ty::Int), body, pure: true }));
+            let f = Expr::Fn(std::sync::Arc::new(FnLit { params: vec![("q".to_string(), Some(Ty::Int))], ret: RetAnn::Ty(Ty::Int), body, pure: true }));
             tops.push(Top::Def { name: "work".into(), mutable: false, ty: None, value: f });
             tops.push(start_fn(vec![print_of(callv("work", vec![int(1)]))]));
         }
         Placement::PureClosure => {
             let mut body = b;
             body.push(Stmt::Expr(var("q")));
-            let f = Expr::Fn(std::rc::Rc::new(FnLit { params: vec![("q".to_string(), Some(Ty::Int))], ret: RetAnn::Ty(Ty::Int), body, pure: true }));
+            let f = Expr::Fn(std::sync::Arc::new(FnLit { params: vec![("q".to_string(), Some(Ty::Int))], ret: RetAnn::Ty(Ty::Int), body, pure: true }));
             tops.push(start_fn(vec![cdef("pc", f), print_of(callv("pc", vec![int(1)]))]));
         }
         Placement::GlobalInit => unreachable!(),
